@@ -51,6 +51,7 @@ func checkC05(c *Ctx) (string, error) {
 		evalSliceCopy(c, "R05.3", rp)
 		checkUTF8(c, rp)
 		checkRuneCodec(c, rp)
+		checkStringEqualOrder(c, rp)
 		evalStringFromInt(c, rp)
 		c.Config = ""
 	}
